@@ -105,10 +105,11 @@ CLAIMS['C13'] = dict(
          '= Rz*Ry*Rx), Wire.rotate/scale/translate (scale includes the radius), Geo_Container.rotate/scale/translate (tagged object or '
          'every object exactly once, bookkeeping for the writer), Helix.__init__ (loop rule: uniform height, point on the linearly tapered '
          'ellipse, start/end points, validation), the emitting loops of taper1/taper2 (exactly n chained pieces), the effective taper '
-         'minimum max(2.5 r, min), and for taper1 the growth clause for every n (each piece at least as long as the previous one and at most '
-         '2.1 times as long: inductive invariant over the doubling / steady phases with 2^i as an uninterpreted function) and the mirror '
-         'image for the other end. BOUNDED stand-in, never counted as proved: the search loops of taper1/taper2 that choose the number of '
-         'tapered segments, the min/max limits (taper1 asserts them at run time) and the growth rule of taper2 (both ends); transformation '
+         'minimum max(2.5 r, min), the taper preambles (frame), and the growth clauses of taper1 and taper2 for every n (inductive invariants '
+         'over the doubling / equal / halving phases with 2^i as an uninterpreted function: each piece between 1 and 2.1 times its '
+         'neighbour towards the tapered end, every piece at least the effective minimum) and the mirror image of taper1 for the other end. '
+         'BOUNDED stand-in, never counted as proved: the search loops of taper1/taper2 that choose the number of tapered segments under a '
+         'maximum, and the upper limit (taper1 asserts it at run time); transformation '
          'order through main() is a C20 unit.',
     note='level "other" because part of the property (taper search loops) is bounded only; trig/sqrt axioms; polynomial identities under '
          'cos^2+sin^2=1 by z3-checked certificates; floats as reals',
